@@ -914,6 +914,16 @@ func (s *Sim) Probe(name string) { s.probes.inc(name) }
 // Fault counts a fault that actually fired.
 func (s *Sim) Fault(kind string) { s.faults.inc(kind) }
 
+// FaultCount returns how often a fault kind has fired in this run.
+func (s *Sim) FaultCount(kind string) int {
+	for _, c := range s.faults {
+		if c.name == kind {
+			return c.n
+		}
+	}
+	return 0
+}
+
 // LockHeld / LockFree maintain the registry of held simulated locks.
 func (s *Sim) LockHeld(l interface{}, who string) {
 	for i := range s.locks {
